@@ -15,7 +15,7 @@ use std::rc::Rc;
 
 const SIGMA: [&str; 14] = ["a", " ", "\"", "#", "\\", "$", "{", "}", "%", "\n", "\r", "=", "\t", "é"];
 const SPECIAL: [&str; 15] = ["${v}", "%{v}", "\\${v}", "${w}", "a b", "\"a b\"", "a  b", "x=y", "and", "or", "not", "(", ")", "true", "false"];
-const WRAPPERS: [&str; 11] = ["direct", "if", "elseif", "while", "not", "alias-stored", "alias-passed", "function", "alias-of-not", "alias-of-not-stored", "alias-stored-then-refused-redefinition"];
+const WRAPPERS: [&str; 17] = ["direct", "if", "elseif", "while", "not", "alias-stored", "alias-passed", "function", "alias-of-not", "alias-of-not-stored", "alias-stored-then-refused-redefinition", "if-not", "while-not", "not-not", "if-alias", "alias-of-alias", "elseif-after-failed-elseif"];
 
 struct Rig {
     ctx: Context,
@@ -102,6 +102,13 @@ impl Rig {
                     "alias al cap z ${v}\nrr = alias al cap z other\nal".to_string()
                 },
             ),
+            // wrappers inside wrappers
+            11 => ("", format!("if not cap {}\nend", args)),
+            12 => ("", format!("while not cap {}\ngoto :out\nend\n:out", args)),
+            13 => ("", format!("r = not not cap {}", args)),
+            14 => ("", format!("alias al cap\nif al {}\nend", args)),
+            15 => ("", format!("alias a1 cap\nalias a2 a1\na2 {}", args)),
+            16 => ("", format!("if false\nelseif equals a b\nelseif cap {}\nend", args)),
             _ => ("fn p\ncap ${1} ${2}\nreturn true\nend\n", format!("if p {}\nend", args)),
         };
         if place == 0 {
@@ -218,8 +225,8 @@ fn class_of(v: &str) -> &'static str {
 
 pub fn bounds(tier: Tier) -> Value {
     match tier {
-        Tier::Quick => json!({"value_len": 3, "alphabet": 14, "special_values": 15, "positions": 2, "wrappers": 10}),
-        Tier::Thorough => json!({"value_len": 4, "alphabet": 14, "special_values": 15, "positions": 2, "wrappers": 10}),
+        Tier::Quick => json!({"value_len": 3, "alphabet": 14, "special_values": 15, "positions": 2, "wrappers": 17}),
+        Tier::Thorough => json!({"value_len": 4, "alphabet": 14, "special_values": 15, "positions": 2, "wrappers": 17}),
     }
 }
 
@@ -512,7 +519,7 @@ pub fn crash_sig(case: &Value, kind: &str) -> String {
     format!("{}:{}:{}", kind, case["wrapper"].as_str().unwrap_or("?"), class_of(case["value"].as_str().unwrap_or("")))
 }
 
-pub const RULE: &str = "values: every string up to the length bound over {a SP \" # \\\\ $ { } % LF CR = TAB e-acute} plus 8 special values (${v}, %{v}, \\\\${v}, ${w}, 'a b', '\"a b\"', 'a  b', x=y), held in a variable and written as ${v} in first or second argument position of a capture command invoked directly, as the condition of if / elseif / while, under not, through an alias that stores the value, through an alias that is passed the value, through a user function used as predicate, through aliases whose target is `not <predicate>` (value passed or stored), and through an alias that stores the value and whose name a second alias definition then tries to take (refused); every wrapping line both at the top level of the script and inside the body of a user function that was itself called with two arguments. Branch family: for six predicate bodies (returning true / its argument / false after a truthy command output, falling off the end or returning bare after a command that produced an output) x plain and <scope> x 7 values the branch taken by if / elseif / while / not / an alias is the one the direct call's output dictates. Aftermath family: behind `if / elseif / while / not <user function> ${v} z` (plain and <scope> function, at top level and inside a called function, 6 values) a probe receives ${1} ${2} ${v} and a caller variable exactly as it does behind the direct call. Scale cases: 302 (thorough 3002) arguments, the first and last a value of 5000 (thorough 100000) characters of such text, through the direct call and seven wrappers. Oracle: the arguments received through the wrapper equal those received by the direct call. A failing case is classified by whether the received arguments equal what re-serialising the values into a line and parsing/binding it again yields (the recorded defect, one signature per input class) or not (a new violation). Non-trivial: the value contains a character other than plain letters";
+pub const RULE: &str = "values: every string up to the length bound over {a SP \" # \\\\ $ { } % LF CR = TAB e-acute} plus 8 special values (${v}, %{v}, \\\\${v}, ${w}, 'a b', '\"a b\"', 'a  b', x=y), held in a variable and written as ${v} in first or second argument position of a capture command invoked directly, as the condition of if / elseif / while, under not, through an alias that stores the value, through an alias that is passed the value, through a user function used as predicate, through aliases whose target is `not <predicate>` (value passed or stored), and through an alias that stores the value and whose name a second alias definition then tries to take (refused); also wrappers inside wrappers (if not, while not, not not, an alias in condition position, an alias of an alias, an elseif behind a failed elseif); every wrapping line both at the top level of the script and inside the body of a user function that was itself called with two arguments. Branch family: for six predicate bodies (returning true / its argument / false after a truthy command output, falling off the end or returning bare after a command that produced an output) x plain and <scope> x 7 values the branch taken by if / elseif / while / not / an alias is the one the direct call's output dictates. Aftermath family: behind `if / elseif / while / not <user function> ${v} z` (plain and <scope> function, at top level and inside a called function, 6 values) a probe receives ${1} ${2} ${v} and a caller variable exactly as it does behind the direct call. Scale cases: 302 (thorough 3002) arguments, the first and last a value of 5000 (thorough 100000) characters of such text, through the direct call and seven wrappers. Oracle: the arguments received through the wrapper equal those received by the direct call. A failing case is classified by whether the received arguments equal what re-serialising the values into a line and parsing/binding it again yields (the recorded defect, one signature per input class) or not (a new violation). Non-trivial: the value contains a character other than plain letters";
 pub const ASSUMPTIONS: &[&str] = &["the capture command returns true on its first call and false afterwards (so a while loop ends)", "classification of known findings uses the real parser and binder on a transcription of the line building in utils/eval.rs"];
 pub const EXHAUSTIVE: bool = true;
 pub const WALL_CAP_S: (u64, u64) = (55, 1500);
